@@ -21,8 +21,27 @@ use noodles_core::{Position, Region};
 use noodles_cram::{self as cram, crai};
 use vmc::{Chooser, Config, Outcome, Violation};
 
-const LAYOUTS: [Option<usize>; 4] = [None, Some(1), Some(2), Some(3)];
-const SHAPE_LAYOUTS: [Option<usize>; 7] = [None, Some(1), Some(2), Some(3), Some(4), Some(5), Some(7)];
+/// (records per slice, slices per container). One slice per container is what noodles' writer produces;
+/// several slices per container are a legal layout that other writers produce (one crai line per slice
+/// and reference, several lines sharing a container offset), reachable here through hook H4.
+type Layout = (Option<usize>, usize);
+const LAYOUTS: [Layout; 6] = [(None, 1), (Some(1), 1), (Some(2), 1), (Some(3), 1), (Some(2), 2), (Some(1), 3)];
+const LAYOUTS_THOROUGH: [Layout; 8] =
+    [(None, 1), (Some(1), 1), (Some(2), 1), (Some(3), 1), (Some(2), 2), (Some(1), 3), (Some(3), 2), (Some(2), 3)];
+const SEQ_LAYOUTS: [Layout; 5] = [(None, 1), (Some(1), 1), (Some(2), 1), (Some(3), 1), (Some(2), 2)];
+const SHAPE_LAYOUTS: [Layout; 11] = [
+    (None, 1),
+    (Some(1), 1),
+    (Some(2), 1),
+    (Some(3), 1),
+    (Some(4), 1),
+    (Some(5), 1),
+    (Some(7), 1),
+    (Some(2), 2),
+    (Some(3), 2),
+    (Some(2), 3),
+    (Some(4), 3),
+];
 
 #[derive(Clone, Debug)]
 enum Reg {
@@ -139,7 +158,7 @@ struct Env {
     async_side: bool,
 }
 
-fn body(ch: &Chooser, env: &Env, streams: &[usize], layouts: &[Option<usize>]) -> Outcome {
+fn body(ch: &Chooser, env: &Env, streams: &[usize], layouts: &[Layout]) -> Outcome {
     let which = *ch.pick_free("stream", streams);
     let layout = *ch.pick_free("layout", layouts);
     let mut protos = stream::base_stream(which);
@@ -150,7 +169,7 @@ fn body(ch: &Chooser, env: &Env, streams: &[usize], layouts: &[Option<usize>]) -
     let st = stream::finalise(protos, &env.refs);
     let recs = &st.recs;
     let names: Vec<&str> = env.refs.iter().map(|r| r.name).collect();
-    let cfg = WriteCfg { records_per_slice: layout, ..Default::default() };
+    let cfg = WriteCfg { records_per_slice: layout.0, slices_per_container: layout.1, ..Default::default() };
     let describe = || {
         format!(
             "stream={} deviations=[{}] {} records: {}",
@@ -194,6 +213,12 @@ fn body(ch: &Chooser, env: &Env, streams: &[usize], layouts: &[Option<usize>]) -
     };
     let expected: Vec<Vec<IndexEntry>> = walk::expected_index(&w, recs);
     let multi = expected.iter().any(|s| s.len() > 1);
+    let multi_slice = w.containers.iter().any(|c| c.slices.len() > 1);
+    let layout_class = format!("{}{}", fp_layout(multi), if multi_slice { "+multi-slice-container" } else { "" });
+    let layout_class = layout_class.as_str();
+    if multi_slice {
+        ch.tag("layout with several slices in one container");
+    }
     if multi {
         ch.tag("layout with a multi-reference slice");
     } else {
@@ -240,7 +265,7 @@ fn body(ch: &Chooser, env: &Env, streams: &[usize], layouts: &[Option<usize>]) -
             }
             let bad = |field: &str, detail: String| {
                 Err(Violation::new(
-                    format!("op=fs::index layout={} outcome=entries-differ field={field}", fp_layout(multi)),
+                    format!("op=fs::index layout={} outcome=entries-differ field={field}", layout_class),
                     describe(),
                     format!("index entries {:?}", expected),
                     detail,
@@ -286,7 +311,7 @@ fn body(ch: &Chooser, env: &Env, streams: &[usize], layouts: &[Option<usize>]) -
             };
             if !multi {
                 return Err(Violation::new(
-                    format!("op=fs::index layout={} outcome={outcome} msg={msg}", fp_layout(multi)),
+                    format!("op=fs::index layout={} outcome={outcome} msg={msg}", layout_class),
                     describe(),
                     "Ok(index)",
                     detail,
@@ -303,12 +328,12 @@ fn body(ch: &Chooser, env: &Env, streams: &[usize], layouts: &[Option<usize>]) -
                 .collect();
             // the violation is reported after the queries ran, so that both halves are observed
             let v = Violation::new(
-                format!("op=fs::index layout={} outcome={outcome} msg={msg}", fp_layout(multi)),
+                format!("op=fs::index layout={} outcome={outcome} msg={msg}", layout_class),
                 describe(),
                 "Ok(index) with one entry per reference of the multi-reference slice",
                 detail,
             );
-            let q = run_queries(ch, env, &path, &repo, &header, idx, false, multi, &scan, recs, &describe);
+            let q = run_queries(ch, env, &path, &repo, &header, idx, false, multi, layout_class, &scan, recs, &describe);
             // both halves are genuine findings; one execution reports one violation: the query
             // failure when there is one (more specific), the index failure otherwise
             return match q {
@@ -317,7 +342,7 @@ fn body(ch: &Chooser, env: &Env, streams: &[usize], layouts: &[Option<usize>]) -
             };
         }
     };
-    run_queries(ch, env, &path, &repo, &header, index, true, multi, &scan, recs, &describe)
+    run_queries(ch, env, &path, &repo, &header, index, true, multi, layout_class, &scan, recs, &describe)
 }
 
 #[allow(clippy::too_many_arguments)]
@@ -329,7 +354,8 @@ fn run_queries(
     header: &noodles_sam::Header,
     index: crai::Index,
     index_from_fs: bool,
-    multi: bool,
+    _multi: bool,
+    layout_class: &str,
     scan: &[Rec],
     recs: &[Rec],
     describe: &dyn Fn() -> String,
@@ -439,7 +465,7 @@ fn run_queries(
                 }
                 let viol = |outcome: &str, expected: String, observed: String| {
                     Err(Violation::new(
-                        format!("op=query api={api} index={which_index} layout={} region={kind} outcome={outcome}", fp_layout(multi)),
+                        format!("op=query api={api} index={which_index} layout={} region={kind} outcome={outcome}", layout_class),
                         format!("{} ; region {} ; api {api}", describe(), reg.text(r.name)),
                         expected,
                         observed,
@@ -575,7 +601,7 @@ fn judge_region(scan: &[Rec], rid: usize, a: usize, b: usize, got: &[Rec], only_
 
 fn body_sequences(ch: &Chooser, env: &Env, streams: &[usize]) -> Outcome {
     let which = *ch.pick_free("stream", streams);
-    let layout = *ch.pick_free("layout", &LAYOUTS);
+    let layout = *ch.pick_free("layout", &SEQ_LAYOUTS);
     let indexed = *ch.pick_free("reader", &[true, false]);
     let mut steps: Vec<Step> = Vec::new();
     steps.push(*ch.pick_free("step1", &STEPS));
@@ -587,7 +613,7 @@ fn body_sequences(ch: &Chooser, env: &Env, streams: &[usize]) -> Outcome {
     let st = stream::finalise(stream::base_stream(which), &env.refs);
     let recs = &st.recs;
     let names: Vec<&str> = env.refs.iter().map(|r| r.name).collect();
-    let cfg = WriteCfg { records_per_slice: layout, ..Default::default() };
+    let cfg = WriteCfg { records_per_slice: layout.0, slices_per_container: layout.1, ..Default::default() };
     let describe = || {
         format!(
             "one {} ; steps {:?} ; stream={} {} records: {}",
@@ -667,8 +693,9 @@ fn body_sequences(ch: &Chooser, env: &Env, streams: &[usize]) -> Outcome {
         let viol = |outcome: &str, exp: String, obs: String| {
             Err(Violation::new(
                 format!(
-                    "op=sequence reader={} step={} after={prev} outcome={outcome}",
+                    "op=sequence reader={} layout={} step={} after={prev} outcome={outcome}",
                     if indexed { "indexed" } else { "plain" },
+                    if w.containers.iter().any(|c| c.slices.len() > 1) { "multi-slice-container" } else { "one-slice-per-container" },
                     step.kind()
                 ),
                 format!("{} ; failing step {} = {:?}", describe(), si + 1, step),
@@ -837,7 +864,7 @@ fn main() {
         ctx.assume("the full scan of noodles' own reader is the baseline list the statement names; the filter is the harness's: reference id and the SAM overlap rule from the CIGAR (POS + sum of M/D/N/=/X - 1); a CIGAR-less placed read covers [POS,POS]");
         ctx.assume("index spans of slices that hold CIGAR-less placed reads may end anywhere between the mapped records' end and POS + read length - 1 (a wider span only costs a container read)");
         ctx.assume("the async side runs on a Ready in-memory source under vrt::block_on; poll schedules are C16's subject");
-        ctx.assume("verdicts use slices_per_container = 1 only (the value the real writer hard-codes)");
+        ctx.assume("layouts with several slices per container come from hook H4 (the unhooked writer always writes one); a stream whose slices of one container have different reference contexts is refused by the writer and then not judged");
         let refs = refs::references();
         let only = std::env::var("C19_ONLY").unwrap_or_default();
         let mut ctx = Filtered { ctx, only };
@@ -854,16 +881,16 @@ fn main() {
             ctx.harness(Config::new("reader_sequences", 0), |ch| body_sequences(ch, &env, &[0, 1, 3]));
         } else {
             let env = Env { refs: refs.clone(), complete_up_to: 60, devs: DevSet::GEOMETRY, async_side: true };
-            ctx.harness(Config::new("layouts_regions_k1_complete60", 1), |ch| body(ch, &env, &[0, 1, 2, 3], &LAYOUTS));
+            ctx.harness(Config::new("layouts_regions_k1_complete60", 1), |ch| body(ch, &env, &[0, 1, 2, 3], &LAYOUTS_THOROUGH));
             let env2 = Env { refs: refs.clone(), complete_up_to: 24, devs: DevSet::GEOMETRY, async_side: true };
             // the k = 2 harnesses query through the sync readers only (the async side is complete at k = 1)
             let env2s = Env { refs: refs.clone(), complete_up_to: 24, devs: DevSet::GEOMETRY, async_side: false };
             let env0 = Env { refs: refs.clone(), complete_up_to: 60, devs: DevSet::NONE, async_side: true };
             ctx.harness(Config::new("shapes_regions", 0), |ch| body(ch, &env0, &[6], &SHAPE_LAYOUTS));
-            ctx.harness(Config::new("shapes_regions_k1", 1), |ch| body(ch, &env2, &[6], &[None, Some(3)]));
+            ctx.harness(Config::new("shapes_regions_k1", 1), |ch| body(ch, &env2, &[6], &[(None, 1), (Some(3), 1), (Some(3), 2)]));
             ctx.harness(Config::new("reader_sequences", 0), |ch| body_sequences(ch, &env, &[0, 1, 2, 3, 6]));
-            ctx.harness(Config::new("layouts_regions_k2_multi", 2), |ch| body(ch, &env2s, &[1], &[None, Some(2)]));
-            ctx.harness(Config::new("layouts_regions_k2_single", 2), |ch| body(ch, &env2s, &[0], &[Some(1), Some(3)]));
+            ctx.harness(Config::new("layouts_regions_k2_multi", 2), |ch| body(ch, &env2s, &[1], &[(None, 1), (Some(2), 1)]));
+            ctx.harness(Config::new("layouts_regions_k2_single", 2), |ch| body(ch, &env2s, &[0], &[(Some(1), 1), (Some(3), 1)]));
         }
     });
 }
